@@ -213,7 +213,14 @@ def compare(ref, cur, vocab, local_names, local_names_ref=frozenset()):
             len(ref['stmts']) == len(cur['stmts']):
         diffs = [(r_, c_) for r_, c_ in zip(ref['calls'], cur['calls']) if r_ != c_]
         inner = [d for d in diffs if d[0][0] == d[1][0] and abs(len(d[0][1]) - len(d[1][1])) == 1]
-        if inner and all(d[0][0] == d[1][0] for d in diffs):
+
+        def _contains_inner(d):
+            # an enclosing call / method call on the result: its text contains the changed call
+            (rf0, ra0), (cf0, ca0) = inner[-1]
+            it_r = '%s(%s)' % (rf0, ', '.join(ra0))
+            it_c = '%s(%s)' % (cf0, ', '.join(ca0))
+            return d[0][0].replace(it_r, it_c) == d[1][0]
+        if inner and all(d[0][0] == d[1][0] or _contains_inner(d) for d in diffs):
             (rf, ra), (cf, ca) = inner[-1]
             longer, shorter = (ra, ca) if len(ra) > len(ca) else (ca, ra)
             if any(longer[:i] + longer[i + 1:] == shorter for i in range(len(longer))):
@@ -280,6 +287,32 @@ def compare(ref, cur, vocab, local_names, local_names_ref=frozenset()):
             out.append(('statement moved into or out of a loop or branch', '; '.join(
                 '%s (%s -> %s)' % (t[:80], a or 'top', b or 'top') for t, a, b in moved)))
             return out
+    # M: a collection that was rebuilt on every iteration of a loop (`x = [..comprehension..]`
+    # inside the loop) is now initialised outside that loop and only appended to inside
+    if ref.get('depth') is not None and cur.get('depth') is not None:
+        def loops(path):
+            return sum(1 for part in path.split('/') if part.startswith(('For', 'While')))
+        for i, t in enumerate(ref['stmts']):
+            if t in cur['stmts']:
+                continue
+            try:
+                st = ast.parse(t).body[0]
+            except (SyntaxError, IndexError):
+                continue
+            if isinstance(st, ast.Assign) and len(st.targets) == 1 and \
+                    isinstance(st.targets[0], ast.Name) and \
+                    isinstance(st.value, (ast.ListComp, ast.SetComp, ast.DictComp)):
+                nm = st.targets[0].id
+                inits = [j for j, u in enumerate(cur['stmts'])
+                         if u in ('%s = []' % nm, '%s = {}' % nm, '%s = set()' % nm)]
+                if len(inits) == 1 and not any(
+                        u in ('%s = []' % nm, '%s = {}' % nm, '%s = set()' % nm)
+                        for u in ref['stmts']) and \
+                        loops(cur['depth'][inits[0]]) < loops(ref['depth'][i]):
+                    out.append(('statement moved into or out of a loop or branch',
+                                '%s = <empty> is now initialised outside the loop that rebuilt it'
+                                % nm))
+                    return out
     # L: the constant a flag / attribute is set to was replaced (by another constant or by an
     # expression), or an expression was replaced by a constant
     if len(ref['stmts']) == len(cur['stmts']) and same['compound']:
